@@ -19,7 +19,9 @@
      next_string              nextString ([]rune(s); rr[len-1] += rune(inc); string(rr))
      needs_list               the needsList loop of NewToUnicodeFile (compares with nextString(first, j+1-start))
      needs_list_pairwise      the same loop BEFORE the F13 repair (nextString(previous, 1)); kept to document F13
-     lookup_cid, lookup_notdef, all_cid      File.LookupCID, File.LookupNotdefCID, File.All
+     lookup_cid_opt, lookup_cid, lookup_notdef, all_cid
+                              File.LookupCID (chain loop, then the file's own LookupNotdefCID), File.LookupNotdefCID, File.All
+     lookup_cid_prefix        LookupCID BEFORE the F31 repair; kept to document F31
      lookup_tu, all_tu, get_mapping          ToUnicodeFile.Lookup, .All, .GetMapping
 
    Text is modelled as the list of its runes.  For strings that are valid UTF-8 (every rune a
@@ -374,7 +376,33 @@ Fixpoint lookup_notdef (f : cfile) (c : bytes) : N :=
       end
   end.
 
-Fixpoint lookup_cid (f : cfile) (c : bytes) : N :=
+(* the loop `for g := f; g != nil; g = g.Parent` of LookupCID: singles, then ranges, of each file of
+   the chain; None when the loop falls through *)
+Fixpoint lookup_cid_opt (f : cfile) (c : bytes) : option N :=
+  let 'CFile _ ss rr _ _ par := f in
+  match find_single ss c with
+  | Some v => Some v
+  | None =>
+      match find_crange rr c with
+      | Some v => Some v
+      | None => match par with
+                | Some p => lookup_cid_opt p c
+                | None => None
+                end
+      end
+  end.
+
+(* LookupCID: a code not mapped anywhere in the chain gets the notdef entries of the file itself
+   (and then, inside LookupNotdefCID, those of its parents) *)
+Definition lookup_cid (f : cfile) (c : bytes) : N :=
+  match lookup_cid_opt f c with
+  | Some v => v
+  | None => lookup_notdef f c
+  end.
+
+(* LookupCID as it was BEFORE the F31 repair (a file with a parent delegated to Parent.LookupCID and so
+   never consulted its own notdef entries); kept to document F31 *)
+Fixpoint lookup_cid_prefix (f : cfile) (c : bytes) : N :=
   match find_single (c_singles f) c with
   | Some v => v
   | None =>
@@ -382,7 +410,7 @@ Fixpoint lookup_cid (f : cfile) (c : bytes) : N :=
       | Some v => v
       | None =>
           match f with
-          | CFile _ _ _ _ _ (Some p) => lookup_cid p c
+          | CFile _ _ _ _ _ (Some p) => lookup_cid_prefix p c
           | CFile _ _ _ _ _ None => lookup_notdef f c
           end
       end
